@@ -5,8 +5,8 @@ From NngV Require Import Proto.Common Ledger.Ledger Ledger.LedgerProofs Ledger.L
 From NngV Require Proto.PushModel Proto.PullModel Proto.PubModel Proto.SubModel Proto.XsubModel Proto.PairModel
   Proto.PairGuard Proto.BusModel Proto.XReqModel Proto.XRepModel Proto.SurveyModel Proto.XSurveyModel Proto.XRespondModel
   Proto.PushProofs Proto.PubSubProofs Proto.PubSubProofs3 Proto.BusProofs
-  Proto.RepModel Proto.RespondModel
-  Ledger.OwnPipeline Ledger.OwnPipelineClose Ledger.OwnPubSub Ledger.OwnPairBus Ledger.OwnSurvey Ledger.OwnXReqRep Ledger.OwnRepResp.
+  Proto.RepModel Proto.RespondModel Proto.ReqModel Proto.ReqProofs
+  Ledger.OwnReq Ledger.OwnPipeline Ledger.OwnPipelineClose Ledger.OwnPubSub Ledger.OwnPairBus Ledger.OwnSurvey Ledger.OwnXReqRep Ledger.OwnRepResp.
 Import ListNotations.
 
 (* what "the ledger of protocol P is balanced over every history, and nothing leaks after close" says *)
@@ -97,6 +97,13 @@ Lemma resp_ledger_ok : forall fx, RespondModel.rf_sbusy fx = true ->
 Proof.
   intros fx Hf. apply (ledger_ok_intro _ _ _ OwnRepResp.SInv); [apply OwnRepResp.resp_proto_law; exact Hf|exact OwnRepResp.resp_inv_init|reflexivity|].
   intros s Hs. apply OwnRepResp.resp_close_drains; assumption.
+Qed.
+
+Lemma req_ledger_ok : forall fx, ReqModel.fx_clone fx = true ->
+  ledger_ok (VReq.view fx) (ReqModel.req_step fx) ReqModel.req_init OwnReq.req_ok OwnReq.req_close_script.
+Proof.
+  intros fx Hf. apply (ledger_ok_intro _ _ _ (OwnReq.ReqInv fx)); [apply OwnReq.req_proto_law; exact Hf|apply OwnReq.req_inv_init|reflexivity|].
+  intros s Hs. apply OwnReq.req_close_drains; assumption.
 Qed.
 
 (* ---------- BUS: does a refused send keep its message? ---------- *)
